@@ -93,6 +93,8 @@ fn finish(src: &str, inputs: &Inputs, n: u64, classes: Vec<String>, allocs: bool
 }
 
 /// per-sample closure instances made by a maker function leak (known finding): switch
+/// boxed payloads of recursive variant values built inside dsp are never released (known finding): switch
+pub const KF_BOX_LEAK: &str = "C12-boxed-variant-never-released";
 pub const KF_MAKER_LEAK: &str = "C12-closure-from-maker-call-leaks";
 /// a lambda passed as an argument to a function is never released (known finding): switch
 pub const KF_ARG_LEAK: &str = "C12-closure-argument-leaks";
@@ -103,11 +105,37 @@ impl Prop for C12 {
     }
     fn spaces(&self, tier: Tier) -> Vec<Space> {
         match tier {
-            Tier::Quick => vec![Space { name: "gen", size: 30000, exhaustive: false, chunk: 200, case_timeout_s: 60.0, what: "generated programs that create closures per sample (lambdas, local closures, lambdas passed to higher-order functions, maker calls) x run length 2N" }],
-            Tier::Thorough => vec![Space { name: "gen", size: 150_000, exhaustive: false, chunk: 1000, case_timeout_s: 60.0, what: "generated programs that create closures per sample x run length 2N" }],
+            Tier::Quick => vec![Space { name: "sum", size: 4000, exhaustive: false, chunk: 200, case_timeout_s: 60.0, what: "generated programs that build values of (recursive, boxed) user sum types per sample and match on them x run length 2N" }, Space { name: "gen", size: 30000, exhaustive: false, chunk: 200, case_timeout_s: 60.0, what: "generated programs that create closures per sample (lambdas, local closures, lambdas passed to higher-order functions, maker calls) x run length 2N" }],
+            Tier::Thorough => vec![Space { name: "sum", size: 100_000, exhaustive: false, chunk: 500, case_timeout_s: 60.0, what: "generated programs that build values of (recursive, boxed) user sum types per sample x run length 2N" }, Space { name: "gen", size: 150_000, exhaustive: false, chunk: 1000, case_timeout_s: 60.0, what: "generated programs that create closures per sample x run length 2N" }],
         }
     }
-    fn run(&self, _space: &str, _index: u64, g: &mut Gen, cx: &Cx) -> CaseResult {
+    fn run(&self, space: &str, _index: u64, g: &mut Gen, cx: &Cx) -> CaseResult {
+        if space == "sum" {
+            let mut scfg = crate::gens::sumgen::SumCfg::default();
+            if cx.excluded(crate::props::c03::KF_SUM_LONE_REC) {
+                scfg.lone_recursive_payload = false;
+            }
+            if cx.excluded(KF_BOX_LEAK) {
+                scfg.boxed_per_sample = false;
+            }
+            let p = crate::gens::sumgen::generate(g, &scfg);
+            let src = crate::gens::sumgen::render(&p);
+            let inputs = gen_inputs(g);
+            let n = *g.pick(&[32u64, 16, 64]);
+            let rec = p.types.iter().any(|t| t.rec);
+            let mut classes = vec!["mode:sum".to_string()];
+            if rec {
+                classes.push("sum:recursive".into());
+            }
+            if !p.global_values {
+                classes.push("sum:values-per-sample".into());
+            }
+            let mut r = finish(&src, &inputs, n, classes, !p.global_values, cx);
+            if cx.excluded(KF_BOX_LEAK) {
+                r.count(&format!("generator_switch_off:{KF_BOX_LEAK}"), 1);
+            }
+            return r;
+        }
         let (mut cfg, off) = c01::pcfg(cx);
         // WASM-only switches are irrelevant here
         cfg.modulo = true;
